@@ -267,6 +267,13 @@ def run(ctx):
             if not pos and not cut_hits:
                 res.ok('closure/%s/leaf' % short, nontrivial=False)
                 continue
+            if not roots:
+                # the loop pops ids of this kind but never looks at the popped entity: none of its references is followed
+                for path, k in pos:
+                    res.bad('closure/%s%s->%s' % (short, show_path(path), k.split('::')[-1]),
+                            'GC does not follow %s%s (a %s id): the %s worklist loop never reads the entity it pops'
+                            % (short, show_path(path), k.split('::')[-1], short))
+                continue
             res.error('cannot identify the entity term in the %s worklist loop (%s)' % (short, [show(r) for r in roots]))
             continue
         root = roots[0]
